@@ -1,7 +1,8 @@
 """C14 -- Every IDL in the supported grammar generates Rust that compiles.
 
 LEVEL (honest): partial.  Theorems (fam/bld/coq/Properties/C14.v) for the decision procedures compilability hinges on
-(keyword escaping over the regenerated KEYWORDS_SET, the sibling-collision rule, relative paths, Box insertion); the
+(keyword escaping over the regenerated KEYWORDS_SET, the sibling-collision rule, relative paths, Box insertion, the AutoDerive
+fixpoint over the regenerated predicate tables / graph accessor); the
 property itself is VALIDATED: generated documents x builder configurations -> real pilota-build in a child process
 (termination, exit status, panic message) -> `cargo check --offline` of the emitted code against /repo/pilota.
 
